@@ -46,7 +46,11 @@ pub fn parse_resolve_request(request: spec::ResolveParams) -> Result<(AnyTir, Ar
     let params = tx3_tir::reduce::find_params(&tir);
     let mut args = ArgMap::new();
 
-    for (key, val) in request.args {
+    // declared parameters may be supplied under the environment map as well; an explicit
+    // argument takes precedence over an environment value of the same name
+    let supplied = request.env.into_iter().flatten().chain(request.args);
+
+    for (key, val) in supplied {
         if let Some(ty) = params.get(&key) {
             let arg = interop::from_json(val.clone(), &ty)?;
             args.insert(key, arg);
